@@ -9,7 +9,9 @@ Open Scope string_scope.
 Theorem C19_slices_are_prefixes :
   init_device_rows = [(5%nat, "/dev/", "SCSIDevice"); (8%nat, "iscsi://", "ISCSIDevice")] /\
   scsi_device_guard = Some (5%nat, "/dev/") /\ iscsi_device_guard = Some (8%nat, "iscsi://") /\
-  init_device_else_raises = true.
+  init_device_else_raises = true /\
+  (* the requested name is stored unmodified by __init__ and is what open() hands to the binding (stores REGENERATED) *)
+  name_flow_ok scsi_device_name_flow = true /\ name_flow_ok iscsi_device_name_flow = true.
 Proof. vm_compute. repeat split; reflexivity. Qed.
 
 Lemma slice_prefix lit s : slice_eq (String.length lit) lit s = String.prefix lit s.
@@ -39,9 +41,9 @@ Theorem C19_dispatch : forall cfg dev rw iname,
   (String.prefix "/dev/" dev = false -> String.prefix "iscsi://" dev = false ->
      init_device cfg dev rw iname = Raise NotImplementedError).
 Proof.
-  intros cfg dev rw iname. destruct C19_slices_are_prefixes as (R & G1 & G2 & E).
-  unfold init_device. rewrite R. cbn [dispatch]. unfold new_scsi_device, new_iscsi_device, guard_passes.
-  rewrite G1, G2, E.
+  intros cfg dev rw iname. destruct C19_slices_are_prefixes as (R & G1 & G2 & E & N1 & N2).
+  unfold init_device. rewrite R. cbn [dispatch]. unfold new_scsi_device, new_iscsi_device, guard_passes, opened_name.
+  rewrite G1, G2, E, N1, N2.
   assert (S1 : slice_eq 5 "/dev/" dev = String.prefix "/dev/" dev) by (exact (slice_prefix "/dev/" dev)).
   assert (S2 : slice_eq 8 "iscsi://" dev = String.prefix "iscsi://" dev) by (exact (slice_prefix "iscsi://" dev)).
   rewrite !S1, !S2. cbn [String.eqb Ascii.eqb Bool.eqb].
@@ -58,7 +60,7 @@ Theorem C19_constructor_guards : forall cfg dev rw iname,
   (String.prefix "/dev/" dev = false \/ has_sgio cfg = false -> new_scsi_device cfg dev rw = Raise NotImplementedError) /\
   (String.prefix "iscsi://" dev = false \/ has_iscsi cfg = false -> new_iscsi_device cfg dev iname = Raise NotImplementedError).
 Proof.
-  intros cfg dev rw iname. destruct C19_slices_are_prefixes as (_ & G1 & G2 & _).
+  intros cfg dev rw iname. destruct C19_slices_are_prefixes as (_ & G1 & G2 & _ & _ & _).
   unfold new_scsi_device, new_iscsi_device, guard_passes. rewrite G1, G2.
   assert (S1 : slice_eq 5 "/dev/" dev = String.prefix "/dev/" dev) by (exact (slice_prefix "/dev/" dev)).
   assert (S2 : slice_eq 8 "iscsi://" dev = String.prefix "iscsi://" dev) by (exact (slice_prefix "iscsi://" dev)).
